@@ -1638,7 +1638,7 @@ func main() {
 		"called on the same tuples, value (canonical: %d, %t, %q, IEEE bits with one NaN) and %T compared exactly; non-trivial = not all operands (constants included) zero/false/empty; " +
 		"distinct by SHA-256 of (op, kinds, shape, placement, constant, operands)"
 	rep := vh.NewReport(a, rule)
-	wd := vh.NewWatchdog(rep, 60*time.Second)
+	wd := vh.NewWatchdog(rep, 180*time.Second)
 	tStart := time.Now()
 
 	// ---- corpus first
